@@ -33,8 +33,15 @@ from ..core import Ctx, MachineryError, NCPU, chunks
 
 FMTS = ["epytext", "restructuredtext", "google", "numpy", "plaintext"]
 OBJS = ["A", "B"]
-NOFAULT = {"parse": "ok", "n": 1, "tostan": "ok", "summary": "ok", "toc": "none"}
+NOFAULT = {"parse": "ok", "n": 1, "tostan": "ok", "summary": "ok", "toc": "none", "field": "ok", "node": "ok"}
+# a real epytext docstring whose ParsedEpytextDocstring.to_node() raises (an indented field before a top-level one leaves a
+# nested field list in the tree): realises the model's node = "once" on the real, unwrapped code
+ONCE_DOC = "Summary of %s here.\n  @note: x\n@note: y"
 CALL_TIMEOUT = 20          # seconds per entry-point call ("terminates")
+# the model describes the tree as it is: both known deviations present. VERIF_C08_MODEL=fixed describes the tree with
+# proposed_fixes/C08-*.diff applied (used to try the fixes; flip the defaults when they are committed)
+_FIXED = os.environ.get("VERIF_C08_MODEL") == "fixed"
+MODEL_CONSTANTS = "  PoisonedCache = %s\n  TocGuarded = %s\n" % (("FALSE", "TRUE") if _FIXED else ("TRUE", "FALSE"))
 
 
 class Injected(Exception):
@@ -118,7 +125,8 @@ def run_scenario(sc: Dict[str, Any]) -> Dict[str, Any]:
     if not inherit:
         by_text[clean["B"]] = "B"
     # what the wrappers saw, per source docstring
-    seen = {o: {"parse": None, "n": 0, "tostan": "ok", "summary": "ok", "toc": "none"} for o in OBJS}
+    seen = {o: {"parse": None, "n": 0, "tostan": "ok", "summary": "ok", "toc": "none", "field": "ok", "node": "ok"} for o in OBJS}
+    last_call = {"lost": False}
     fallback_used = {"flag": False}
     reports: List[Tuple[str, int, bool]] = []       # (object fullName, number of messages, names the file)
     cur = {"o": None}
@@ -148,8 +156,12 @@ def run_scenario(sc: Dict[str, Any]) -> Dict[str, Any]:
         """The parser's result, passed through; injects / observes failures of to_stan and to_node."""
         def __init__(self, inner: ParsedDocstring, who: str):
             ParsedDocstring.__init__(self, inner.fields)
+            if fault(who, "field") == "raises":
+                for fld in self.fields:
+                    fld.replace_body(Raising(fld.body()))
             self._inner, self._who, self._ctx = inner, who, None
             self._c08_summary: Optional[ParsedDocstring] = None
+            self._node_failed = False        # a to_node() call on the wrapped object has raised
 
         @property
         def has_body(self) -> bool:
@@ -159,10 +171,31 @@ def run_scenario(sc: Dict[str, Any]) -> Dict[str, Any]:
             if fault(self._who, "tostan") == "raises":
                 seen[self._who]["tostan"] = "raises"
                 raise Injected("to_stan")
+            failed_before = self._node_failed
+            uses_to_node = type(self._inner).to_stan is ParsedDocstring.to_stan
+            if uses_to_node:
+                self._inner.to_node = self._observed_to_node      # type: ignore[method-assign]  (default to_stan calls self.to_node())
             try:
-                return self._inner.to_stan(linker)
+                r = self._inner.to_stan(linker)
             except Exception:
                 seen[self._who]["tostan"] = "raises"
+                raise
+            finally:
+                if uses_to_node:
+                    del self._inner.to_node
+            if failed_before and uses_to_node:
+                # the body comes from a document whose construction had failed earlier: the half-built cache
+                seen[self._who]["node"] = "once"
+                last_call["lost"] = True
+            return r
+
+        def _observed_to_node(self) -> Any:
+            try:
+                return type(self._inner).to_node(self._inner)
+            except NotImplementedError:
+                raise
+            except Exception:
+                self._node_failed = True
                 raise
 
         def to_node(self) -> Any:
@@ -170,7 +203,11 @@ def run_scenario(sc: Dict[str, Any]) -> Dict[str, Any]:
                 raise Injected("to_node in get_summary")
             if self._ctx == "toc" and fault(self._who, "toc") == "noderaises":
                 raise Injected("to_node in get_toc")
-            return self._inner.to_node()
+            failed_before = self._node_failed
+            r = self._observed_to_node()
+            if failed_before:
+                seen[self._who]["node"] = "once"                  # raised before, returns now
+            return r
 
         def get_summary(self) -> ParsedDocstring:          # the REAL get_summary on top of our to_node
             if self._c08_summary is None:
@@ -306,6 +343,24 @@ def run_scenario(sc: Dict[str, Any]) -> Dict[str, Any]:
         fallback_used["flag"] = True
         return orig_dfb(errs, parsed_doc, ctx)
 
+    orig_field_format = epydoc2stan.Field.format
+
+    def field_format(self: Any) -> Any:
+        prev = cur["o"]
+        cur["o"] = "field"
+        try:
+            r = orig_field_format(self)
+        finally:
+            cur["o"] = prev
+        who = rev.get(self.source.fullName())
+        if who is not None and "Broken description" in flatten(r) and type(self.body).to_stan is not epydoc2stan.ParsedStanOnly.to_stan:
+            try:
+                self.body.to_stan(self.source.docstring_linker)
+            except Exception:
+                seen[who]["field"] = "raises"
+        return r
+    epydoc2stan.Field.format = field_format
+
     rev: Dict[str, str] = {}
     epydoc2stan.get_parser_by_name = get_parser_by_name
     epydoc2stan.processtypes = processtypes
@@ -340,11 +395,12 @@ def run_scenario(sc: Dict[str, Any]) -> Dict[str, Any]:
             return {"skip": "docstring changed on the way through the builder"}
 
         def project() -> Dict[str, Any]:
-            st: Dict[str, Any] = {"pd": {}, "ps": {}, "perr": {}, "nrep": {}}
+            st: Dict[str, Any] = {"pd": {}, "ps": {}, "perr": {}, "nrep": {}, "pz": {}}
             for o in OBJS:
                 ob = obs[o]
                 p = ob.parsed_docstring
                 st["pd"][o] = "none" if p is None else ("parsed" if isinstance(p, Proxy) else "plain")
+                st["pz"][o] = bool(isinstance(p, Proxy) and p._node_failed)
                 s = ob.parsed_summary
                 if s is None:
                     st["ps"][o] = "none"
@@ -369,6 +425,7 @@ def run_scenario(sc: Dict[str, Any]) -> Dict[str, Any]:
         for (o, op) in sc["order"]:
             ob = obs[o]
             fallback_used["flag"] = False
+            last_call["lost"] = False
             html = ""
             r = None
             exc = ""
@@ -389,6 +446,8 @@ def run_scenario(sc: Dict[str, Any]) -> Dict[str, Any]:
                         r = "undoc"
                     elif fallback_used["flag"] or pstate == "plain":
                         r = "plainfull" if (full and '<p class="pre">' in html) else ("broken" if "Broken description" in html else "partial")
+                    elif last_call["lost"]:
+                        r = "lost"
                     else:
                         r = "rendered"
                 elif op == "summary":
@@ -405,15 +464,28 @@ def run_scenario(sc: Dict[str, Any]) -> Dict[str, Any]:
         F = {}
         for o in OBJS:
             if inject is not None:
-                F[o] = dict(inject[o])
+                F[o] = dict(sc["declared"][o]) if "declared" in sc else dict(inject[o])
             else:
                 s = dict(seen[o])
                 if s["parse"] is None:
                     s["parse"] = "ok"                     # never parsed (inherited B): irrelevant
                 s["n"] = max(1, s["n"])
+                if s["node"] == "once":                   # the other observations are consequences of the half-built cache
+                    s.update({"tostan": "ok", "summary": "ok", "toc": "none"})
                 F[o] = s
         if inject is None and inherit:
             F["B"] = dict(NOFAULT)
+        if inject is None:
+            # the summary of the plain text fallback object can fail as well; nothing wraps it: read it off the results
+            for e in events:
+                so = "A" if (e["o"] == "B" and inherit) else e["o"]
+                if e["op"] == "summary" and e["st"]["pd"][e["o"]] == "plain" and e["r"] in ("broken", "brokensum"):
+                    F[so]["summary"] = "stanraises" if e["r"] == "broken" else "broken"
+        for e in events:          # the half-built cache only exists where a failed to_node() was later seen to return
+            for o in OBJS:
+                so = "A" if (o == "B" and inherit) else o
+                if seen[so]["node"] != "once":
+                    e["st"]["pz"][o] = False
         out = {"F": F, "inherit": inherit, "kindA": model_kind(kind), "ev": events, "frame_ok": frame_ok, "xhtml": xhtml,
                "reports": [[fn, n, ok] for (fn, n, ok) in reports], "names": names, "seen": seen,
                "built_parse": system.allobjects[names["A"]].parsed_docstring is not None and len(events) == 0}
@@ -421,6 +493,7 @@ def run_scenario(sc: Dict[str, Any]) -> Dict[str, Any]:
         epydoc2stan.get_parser_by_name, epydoc2stan.processtypes = orig_get_parser, orig_pt
         epydoc2stan.reportErrors, epydoc2stan.format_docstring_fallback = orig_re, orig_dfb
         epydoc2stan.parse_docstring = orig_parse_docstring
+        epydoc2stan.Field.format = orig_field_format
     return out
 
 
@@ -442,7 +515,10 @@ def judge(tr: Dict[str, Any]) -> List[str]:
             gave_up = f["parse"] in ("fatal", "crash")
             if (gave_up or (f["tostan"] == "raises" and st["pd"][e["o"]] == "parsed")) and e["r"] != "plainfull":
                 bad.append("FallbackComplete")
-            if f["tostan"] == "raises" and st["pd"][e["o"]] == "parsed" and not (st["perr"][src(e["o"])] and st["nrep"][src(e["o"])] >= 1):
+            if e["r"] in ("lost", "partial", "broken"):
+                bad.append("FallbackComplete")
+            if (f["tostan"] == "raises" or f.get("field") == "raises") and st["pd"][e["o"]] == "parsed" \
+                    and not (st["perr"][src(e["o"])] and st["nrep"][src(e["o"])] >= 1):
                 bad.append("ReportedWhenRenderFails")
         if e["op"] == "summary" and e["r"] not in ("summary", "brokensum", "broken"):
             bad.append("SummaryAlways")
@@ -454,7 +530,7 @@ def judge(tr: Dict[str, Any]) -> List[str]:
         if prev_st is not None:
             for p in OBJS:
                 if p != e["o"] and p != src(e["o"]):
-                    if any(prev_st[k][p] != st[k][p] for k in ("pd", "ps", "perr", "nrep")):
+                    if any(prev_st[k][p] != st[k][p] for k in ("pd", "ps", "perr", "nrep", "pz")):
                         bad.append("Frame")
         prev_st = st
     # one report per object: at most one effective reportErrors per (object)
@@ -470,30 +546,57 @@ def judge(tr: Dict[str, Any]) -> List[str]:
     return sorted(set(bad))
 
 
-def kf_toc_escapes(w: Dict[str, Any]) -> bool:
-    """Python twin of Docstring.tla KF_TocEscapes: the only failing invariant is AlwaysResult and every escape is a
-    format_toc call whose get_toc met a to_node failure."""
-    if w.get("failed") != ["AlwaysResult"]:
-        return False
+def _explained(w: Dict[str, Any]) -> Optional[set]:
+    """Which known deviations account for EVERY offending event of the witness (None: something else is wrong)."""
+    if not set(w.get("failed") or ["?"]) <= {"AlwaysResult", "FallbackComplete"}:
+        return None
     tr = w.get("trace") or {}
     src = lambda o: "A" if (o == "B" and tr.get("inherit")) else o
-    esc = [e for e in tr.get("ev", []) if e["r"] == "escaped"]
-    return bool(esc) and all(e["op"] == "toc" and tr["F"][src(e["o"])]["toc"] == "noderaises" for e in esc)
+    need = set()
+    for e in tr.get("ev", []):
+        f = tr["F"][src(e["o"])]
+        if e["r"] == "escaped":
+            if e["op"] == "toc" and (f["toc"] == "noderaises" or f.get("node") == "once"):
+                need.add("toc")
+            else:
+                return None
+        elif e["op"] == "docstring":
+            if e["r"] == "lost" and f.get("node") == "once":
+                need.add("cache")
+            elif e["r"] in ("lost", "partial", "broken"):
+                return None
+            elif (f["parse"] in ("fatal", "crash") or (f["tostan"] == "raises" and e["st"]["pd"][e["o"]] == "parsed")) and e["r"] != "plainfull":
+                return None
+    return need or None
+
+
+def kf_toc_escapes(w: Dict[str, Any]) -> bool:
+    """Python twin of Docstring.tla KF_TocEscapes: every escape is a format_toc call whose get_toc met a to_node failure
+    (and whatever else fails in the same execution is the other known deviation)."""
+    need = _explained(w)
+    return need is not None and "toc" in need
+
+
+def kf_poisoned_cache(w: Dict[str, Any]) -> bool:
+    """Python twin of Docstring.tla KF_PoisonedCache: the only offence is a body rendered from the half-built cached
+    document of an epytext docstring whose to_node() had failed (unreported) in get_summary / get_toc before."""
+    need = _explained(w)
+    return need == {"cache"}
 
 
 # ---------------------------------------------------------------------------------------- docstrings
 TITLED = {
     "epytext": "Summary here.\n\nTitle\n=====\n\nSection text with I{markup}.\n\n@note: a field\n",
     "restructuredtext": "Summary here.\n\nTitle\n=====\n\nSection text with *markup*.\n\n:note: a field\n",
-    "google": "Summary here.\n\nTitle\n=====\n\nSection text with *markup*.\n\nNote:\n    a note\n",
-    "numpy": "Summary here.\n\nTitle\n=====\n\nSection text with *markup*.\n\nNote\n----\na note\n",
+    "google": "Summary here.\n\nTitle\n=====\n\nSection text with *markup*.\n\nNote:\n    a note\n\n:note: a field\n",
+    "numpy": "Summary here.\n\nTitle\n=====\n\nSection text with *markup*.\n\nNote\n----\na note\n\n:note: a field\n",
     "plaintext": "Summary here.\n\nTitle\n=====\n\nSection text.\n",
 }
 PLAIN = {
     "epytext": "Summary of B{this} object & <its> kin.\n\nMore text with C{code} here.\n\n@note: a field\n",
     "restructuredtext": "Summary of **this** object & <its> kin.\n\nMore text with ``code`` here.\n\n:note: a field\n",
-    "google": "Summary of **this** object & <its> kin.\n\nMore text with ``code`` here.\n\nNote:\n    a note\n",
-    "numpy": "Summary of **this** object & <its> kin.\n\nMore text with ``code`` here.\n\nNote\n----\na note\n",
+    "google": "Summary of **this** object & <its> kin.\n\nMore text with ``code`` here.\n\nNote:\n    a note\n\n:note: a field\n",
+    "numpy": "Summary of **this** object & <its> kin.\n\nMore text with ``code`` here.\n\nNote\n----\na note\n\n:note: a field\n",
     "plaintext": "Summary of this object & <its> kin.\n\nMore text here.\n",
 }
 
@@ -502,11 +605,13 @@ def inj_scenario(rec: Dict[str, Any], fmt: str, pt: bool) -> Dict[str, Any]:
     """The real scenario that realises one enumerated behaviour of Docstring.tla."""
     F = rec["F"]
     def doc(o: str) -> str:
+        if F[o]["node"] == "once":
+            return ONCE_DOC % o
         base = TITLED if F[o]["toc"] in ("ok", "stanraises", "noderaises") else PLAIN
         return base[fmt].replace("Summary", "Summary of %s" % o, 1)
     kind = "class" if rec["kindA"] == "cls" else ("method" if rec["inherit"] else "function")
     return {"fmt": fmt, "pt": pt, "kind": kind, "inherit": rec["inherit"], "docA": doc("A"), "docB": doc("B"),
-            "faults": F, "order": [[x["o"], x["op"]] for x in rec["res"]]}
+            "faults": inject_for(F), "declared": F, "order": [[x["o"], x["op"]] for x in rec["res"]]}
 
 
 def _inj_job(job: Tuple[Dict[str, Any], str, bool]) -> Dict[str, Any]:
@@ -602,9 +707,9 @@ CONSTANTS Source = "enum"
   OrderMode = "{order_mode}"
   BMenu = "{bmenu}"
   Ns = {ns}
-CONSTRAINT EmitTerminal
+{MODEL_CONSTANTS}CONSTRAINT EmitTerminal
 INVARIANT AlwaysResultOrKF
-INVARIANT FallbackComplete
+INVARIANT FallbackCompleteOrKF
 INVARIANT ReportedWhenFailed
 INVARIANT ReportedWhenRenderFails
 INVARIANT OneReport
@@ -619,10 +724,10 @@ CONSTANTS Source = "file"
   OrderMode = "all"
   BMenu = "small"
   Ns = {1, 2}
-CONSTRAINT Accept
+""" + MODEL_CONSTANTS + """CONSTRAINT Accept
 POSTCONDITION Post
 INVARIANT AlwaysResultOrKF
-INVARIANT FallbackComplete
+INVARIANT FallbackCompleteOrKF
 INVARIANT ReportedWhenFailed
 INVARIANT ReportedWhenRenderFails
 INVARIANT OneReport
@@ -636,10 +741,16 @@ def slim(tr: Dict[str, Any]) -> Dict[str, Any]:
             "ev": [{"o": e["o"], "op": e["op"], "r": e["r"], "st": e["st"]} for e in tr["ev"]]}
 
 
+def inject_for(F: Dict[str, Any]) -> Dict[str, Any]:
+    """The faults to inject for an enumerated configuration: node = 'once' is realised by the docstring itself."""
+    return {o: (dict(NOFAULT) if F[o]["node"] == "once" else dict(F[o])) for o in OBJS}
+
+
 # ------------------------------------------------------------------------------------------------ check
 def run(ctx: Ctx) -> int:
     rng = random.Random(ctx.seed)
     ctx.register_matcher("format-toc-unguarded", kf_toc_escapes)
+    ctx.register_matcher("epytext-half-built-document-cached", kf_poisoned_cache)
     nproc = max(2, min(NCPU, 16))
     all_traces: List[Dict[str, Any]] = []
 
@@ -650,11 +761,19 @@ def run(ctx: Ctx) -> int:
         if bad:
             sc = tr["sc"]
             esc = [e for e in tr["ev"] if e["r"] == "escaped"]
-            ctx.violation({"invariant": bad[0], "failed": bad, "origin": origin, "scenario": sc, "trace": slim(tr),
-                           "observed": {"exceptions": [e["exc"] for e in esc][:3], "reports": tr["reports"],
-                                        "results": [[e["o"], e["op"], e["r"], e["full"]] for e in tr["ev"]]},
-                           "key": "%s:%s:%s:%s:%s" % (origin, bad, sc["fmt"] if origin != "inject" else "*", tr["kindA"],
-                                                      sorted((o, k, v) for o in OBJS for k, v in tr["F"][o].items() if v != NOFAULT[k] and k != "n"))})
+            wit = {"invariant": bad[0], "failed": bad, "origin": origin, "scenario": sc, "trace": slim(tr),
+                   "observed": {"exceptions": [e["exc"] for e in esc][:3], "reports": tr["reports"],
+                                "results": [[e["o"], e["op"], e["r"], e["full"]] for e in tr["ev"]]},
+                   "key": "%s:%s:%s:%s:%s" % (origin, bad, sc["fmt"] if origin != "inject" else "*", tr["kindA"],
+                                              sorted((o, k, v) for o in OBJS for k, v in tr["F"][o].items() if v != NOFAULT[k] and k != "n"))}
+            if wit["key"] not in pending_keys or origin == "fuzz":       # one witness per class for the injected ones
+                pending_keys.add(wit["key"])
+                pending[origin].append(wit)
+            pending_count[origin] = pending_count.get(origin, 0) + 1
+
+    pending: Dict[str, List[Dict[str, Any]]] = {"fuzz": [], "inject": []}
+    pending_keys: set = set()
+    pending_count: Dict[str, int] = {}
 
     # baseline rendering of the bystander per docformat (no faults anywhere)
     baseline_x: Dict[str, str] = {}
@@ -664,7 +783,7 @@ def run(ctx: Ctx) -> int:
         baseline_x[fmt] = t["xhtml"]
 
     # ================================================================= spec -> code : every fault combination, injected
-    r = ctx.tlc("Docstring", cfg_enum("Bfixed" if ctx.quick else "all", "small", "{1}" if ctx.quick else "{1, 2}"), workers="auto", check=False,
+    r = ctx.tlc("Docstring", cfg_enum("Bfixed" if ctx.quick else "all", "tiny" if ctx.quick else "small", "{1}" if ctx.quick else "{1, 2}"), workers="auto", check=False,
                 coverage=False, timeout=1500, java_opts=["-Xmx6g"])
     hard = [e for e in r.errors if "behavior up to this point" not in e]
     if hard or (r.rc != 0 and not r.violated):
@@ -677,7 +796,7 @@ def run(ctx: Ctx) -> int:
     # distinct fault configurations x inherit x kind (every one is replayed with every enumerated order)
     ctx.extra["fault_configurations"] = len({json.dumps([x["F"], x["inherit"], x["kindA"]], sort_keys=True) for x in recs})
     # replay: every fault configuration with a seeded sample of the enumerated call orders (all of them would be ~13 ms each)
-    per_cfg = 12 if ctx.quick else 60
+    per_cfg = 10 if ctx.quick else 60
     groups: Dict[str, List[Dict[str, Any]]] = {}
     for rec in recs:
         groups.setdefault(json.dumps([rec["F"], rec["inherit"], rec["kindA"]], sort_keys=True), []).append(rec)
@@ -691,8 +810,11 @@ def run(ctx: Ctx) -> int:
     jobs = []
     markup_fmts = [f for f in FMTS if f != "plaintext"]
     for idx, rec in enumerate(chosen):
-        needs_titles = any(rec["F"][o]["toc"] in ("ok", "stanraises") for o in OBJS)      # plain text has no section titles
+        needs_titles = any(rec["F"][o]["toc"] in ("ok", "stanraises") or rec["F"][o]["field"] == "raises"
+                           for o in OBJS)                # plain text has neither section titles nor fields
         fmt = markup_fmts[idx % len(markup_fmts)] if needs_titles else FMTS[idx % len(FMTS)]
+        if any(rec["F"][o]["node"] == "once" for o in OBJS):
+            fmt = "epytext"                              # the deviation lives in ParsedEpytextDocstring
         jobs.append((rec, fmt, bool((idx // len(FMTS)) % 2)))
     with ProcessPoolExecutor(max_workers=nproc) as ex:
         results = list(ex.map(_inj_job, jobs, chunksize=64))
@@ -757,6 +879,17 @@ def run(ctx: Ctx) -> int:
         t = fz[len(fz) // 3]
         ctx.sample({"fuzz": {"fmt": t["sc"]["fmt"], "kind": t["sc"]["kind"], "pt": t["sc"]["pt"], "doc": t["sc"]["docA"][:120]},
                     "observed_faults": t["F"]["A"], "results": [[e["o"], e["op"], e["r"]] for e in t["ev"]]})
+
+    # verdicts: witnesses found with real docstrings first (they get the replay files), then the injected ones
+    renderer_failures = [t for t in fz if t["F"]["A"]["tostan"] != "ok" or t["F"]["A"]["summary"] != "ok" or t["F"]["A"]["toc"] in ("noderaises", "stanraises")]
+    ctx.extra["fuzz_renderer_failures"] = len(renderer_failures)
+    ctx.extra["fuzz_renderer_failure_examples"] = [
+        {"fmt": t["sc"]["fmt"], "kind": t["sc"]["kind"], "pt": t["sc"]["pt"], "doc": t["sc"]["docA"][:160], "faults_observed": t["F"]["A"],
+         "results": [[e["o"], e["op"], e["r"], e["exc"][:100]] for e in t["ev"]]} for t in renderer_failures[:8]]
+    for origin in ("fuzz", "inject"):
+        for wit in pending[origin]:
+            ctx.violation(wit)
+    ctx.extra["executions_violating_the_property"] = pending_count
 
     # ================================================================= TLC validates every recorded execution
     def validate(trs: List[Dict[str, Any]], count: bool = True) -> Tuple[set, List[str]]:
